@@ -336,3 +336,42 @@ func m_strconv_commonPrefixLenIgnoreCase(s, prefix string) int {
 	}
 	return n
 }
+
+// vRegexpGtWsLt models regexp.MustCompile(`>[\n\t\r ]*<`).ReplaceAll(src, repl):
+// leftmost, non-overlapping matches.
+func vRegexpGtWsLt(src, repl []byte) []byte {
+	var out []byte
+	i := 0
+	for i < len(src) {
+		if src[i] == '>' {
+			j := i + 1
+			for j < len(src) && (src[j] == '\n' || src[j] == '\t' || src[j] == '\r' || src[j] == ' ') {
+				j++
+			}
+			if j < len(src) && src[j] == '<' {
+				out = append(out, repl...)
+				i = j + 1
+				continue
+			}
+		}
+		out = append(out, src[i])
+		i++
+	}
+	return out
+}
+
+func m_bytes_TrimLeft(s []byte, cutset string) []byte {
+	for len(s) > 0 && vInCutset(s[0], cutset) {
+		s = s[1:]
+	}
+	if len(s) == 0 {
+		return nil
+	}
+	return s
+}
+func m_bytes_TrimRight(s []byte, cutset string) []byte {
+	for len(s) > 0 && vInCutset(s[len(s)-1], cutset) {
+		s = s[:len(s)-1]
+	}
+	return s
+}
